@@ -27,9 +27,10 @@ git diff --quiet -- core cli && { echo "$ID: worktree has no change applied"; ex
 cargo test --workspace --offline >/tmp/test-$ID.log 2>&1; t=$?
 grep -E "^test result" /tmp/test-$ID.log | tr '\n' ' '
 run_demo; with=$?
-git stash -q -- core cli
+git diff -- core cli > $WT/.confirm.diff
+git apply -R $WT/.confirm.diff
 run_demo; without=$?
-git stash pop -q
+git apply $WT/.confirm.diff; rm -f $WT/.confirm.diff
 echo
 echo "$ID: tests_with_change_exit=$t demo_with_change_exit=$with demo_without_change_exit=$without"
 python3 - <<PY
